@@ -24,6 +24,7 @@ func main() {
 		verbose  = flag.Bool("v", false, "verbose")
 		noEv     = flag.Bool("no-evidence", false, "do not write evidence files")
 		listOnly = flag.Bool("list", false, "list properties and rules")
+		sweep    = flag.Bool("rename-sweep", false, "run the rename sweep for the given properties (development aid)")
 	)
 	flag.Parse()
 	if *listOnly {
@@ -92,6 +93,10 @@ func main() {
 		res := runProperty(pr, p, kf)
 		extra := map[string]interface{}{}
 		selfFail := false
+		if *sweep {
+			runRenameSweep(deps, pr, p, kf, *verbose)
+			continue
+		}
 		if *tier == "thorough" {
 			st := runSelfTest(deps, pr, p, kf, *mutDir, seed, *verbose)
 			extra["selftest"] = st
